@@ -48,10 +48,7 @@ func (s *DefaultSession) SetExpiresAt(key TokenType, exp time.Time) {
 }
 
 func (s *DefaultSession) GetExpiresAt(key TokenType) time.Time {
-	if s.ExpiresAt == nil {
-		s.ExpiresAt = make(map[TokenType]time.Time)
-	}
-
+	// a getter does not initialise the map: sessions are read by concurrent requests (a nil map reads as empty)
 	return s.ExpiresAt[key]
 }
 
